@@ -5,6 +5,7 @@ import GoCrypt.Props.TypeInfoIR
 import GoCrypt.Props.CodecIR
 import GoCrypt.Props.CodecIRLink
 import GoCrypt.Props.CodecIRU
+import GoCrypt.Props.CodecIRU2
 
 /-!
 # C10 — Marshal / Unmarshal round trip
@@ -443,4 +444,13 @@ example :
 #print axioms GoCrypt.CodecIRU.fieldText_eq_lenRule
 #print axioms GoCrypt.CodecIRU.unmarshal_string
 #print axioms GoCrypt.CodecIRU.unmarshalText_witness
+-- Unmarshal, continued (Props/CodecIRU2.lean): the regenerated unmarshal on a value node = fieldText then storeValue for EVERY field kind (bytes, arrays, all integer widths, pointers, text unmarshalers, prefix rule,
+-- unsupported types); one iteration of the field loop = stepField and the whole loop = loopFields for struct descriptions without grouped params; the checks after the loop = the end of unmarshalTree.
+-- Not yet proved: the grouped-param clause of the loop and the top-level assembly (both run against the model as #guard examples and tied by the correspondence suites)
+#print axioms GoCrypt.CodecIRU.unmarshal_value_eq_model
+#print axioms GoCrypt.CodecIRU.unmarshal_prefix_eq_model
+#print axioms GoCrypt.CodecIRU.step_eq_stepField
+#print axioms GoCrypt.CodecIRU.loop_eq_loopFields
+#print axioms GoCrypt.CodecIRU.after_loop_eq_model
+#print axioms GoCrypt.CodecIRU.callsU_callIn
 end GoCrypt.C10
